@@ -434,7 +434,7 @@ def oracle_c07(lhs, obs, group=None):
 def history_key(lhs):
     """ag lines that replay the same history (ag.pure) share this key"""
     kv = kv_of(lhs)
-    return (kv.get("tr"), kv.get("local"), kv.get("ops"))
+    return (kv.get("tr"), kv.get("local"), kv.get("ra"), kv.get("ops"))
 
 
 # ------------------------------------------------------------------------------ tables
